@@ -4,7 +4,11 @@ C14 — self-encrypted data round-trips; chunks are bounded and content-addresse
 Statements are over the model of `encrypt` / `pack_data_map` / `fetch_from_data_map(_chunk)` in `Model/SelfEnc.lean`;
 what is packed at each level, what the fetch loop unwraps, the size guard and the chunk order are regenerated from
 the Rust source (`Gen/SelfEnc.lean`). The third-party `self_encryption` crate, sha3 and the rmp codec are the structure
-parameter `SE` with the hypotheses `Laws` — they are assumed, not verified.
+parameter `SE` with the hypotheses `Laws` (functional behaviour) and `Shrinks` (sizes) — they are assumed, not verified.
+Nothing is assumed of the hash beyond "the chunks at hand do not collide" (`NoCollision`, a hypothesis on the produced
+chunks, satisfiable by a real hash, unlike global injectivity). That `self_encryption::encrypt` is a function of its
+input (same bytes ⇒ same data map and chunks) is built into `SE.enc` being a Lean function: an assumption on the
+third-party crate, checked on the real code by the harness (clause `encrypt-deterministic`).
 -/
 namespace SafeNet.Props.C14
 open SafeNet.Model.SelfEnc SafeNet.Proofs.SelfEnc
@@ -15,10 +19,13 @@ variable {B DM : Type}
 
 /-- For every input that `encrypt` accepts — whatever the number of data-map levels — fetching through the returned
 data-map chunk against a record source that holds exactly the produced chunks returns the input, for every completion
-order of the chunk fetches of every round (`codes`), given enough loop iterations. -/
+order of the chunk fetches of every round (`codes`: every code is a permutation and every permutation has a code,
+`completion_codes_are_the_permutations`), given enough loop iterations. The only thing asked of the hash is that no two
+of the produced chunks collide (a colliding pair would share one address, and the store can hold only one of them). -/
 theorem fetch_pack_roundtrip (S : SE B DM) (L : Laws S) (max fuel : Nat) (data : B)
     (dataMapChunk : Chunk B) (chunks : List (Chunk B))
-    (h : encrypt S max fuel data = .ok (dataMapChunk, chunks)) :
+    (h : encrypt S max fuel data = .ok (dataMapChunk, chunks))
+    (hcf : NoCollision S (chunks.map (·.value))) :
     ∀ fuel', fuel + 1 ≤ fuel' → ∀ codes : List (List Nat),
       fetchFromDataMapChunk S (storeGet chunks) fuel' codes dataMapChunk.value = .ok data := by
   unfold encrypt at h
@@ -47,14 +54,20 @@ theorem fetch_pack_roundtrip (S : SE B DM) (L : Laws S) (max fuel : Nat) (data :
         intro f hf codes
         obtain ⟨f', rfl⟩ : ∃ f', f = f' + 1 := ⟨f - 1, by omega⟩
         simp only [fetchLoop]
-        rw [fetch_round S L chunks hwf data dm cs henc hcs]
+        rw [fetch_round S L chunks hwf hcf data dm cs henc hcs]
         simp
-      obtain ⟨lvl', depth', hun, hg, hle⟩ := pack_good S L max chunks hwf data fuel _ [] _ _ hpack
+      obtain ⟨lvl', depth', hun, hg, hle⟩ := pack_good S L max chunks hwf hcf data fuel _ [] _ _ hpack
         (by intro c hc; rw [← h2]; exact List.mem_append_right _ hc) (false, dm) 1 (L.unwrap_wrap false dm) hgood
       intro fuel' hfuel codes
       unfold fetchFromDataMapChunk
       rw [hun]
       exact hg fuel' (by omega) codes
+
+/-- The completion orders the round-trip theorem quantifies over are exactly the permutations of the download tasks:
+every code denotes a permutation of the task list and every permutation of it has a code. -/
+theorem completion_codes_are_the_permutations {α : Type} (tasks order : List α) :
+    order.Perm tasks ↔ ∃ code, permute code tasks = order :=
+  ⟨permute_surj tasks order, fun ⟨code, h⟩ => h ▸ permute_perm code tasks⟩
 
 /-! ### datamap_chunk_bounded, chunks_bounded -/
 
@@ -133,6 +146,36 @@ theorem chunks_bounded (S : SE B DM) (max fuel bound : Nat) (data : B) (dataMapC
         rw [← hcv]; exact hbound _ _ _ henc v hv
       | inr h2 => exact hloop fuel _ [] _ _ hpack (by intro c hc; cases hc) c h2
 
+/-- The clause as the property words it: *every* produced chunk is no larger than `MAX_CHUNK_SIZE`. It speaks about the
+output of the third-party crate, so its truth depends on the `SE` instance — and it is FALSE of the real one: the
+crate's cipher pads every encrypted chunk, a full-size chunk comes out 16 bytes longer than `MAX_CHUNK_SIZE` (harness
+op `bound`: 416 bytes with `MAX_CHUNK_SIZE=400`, 1048592 with the shipped 1 MiB; known finding K-j-chunk-exceeds-max). -/
+def AllChunksBounded (S : SE B DM) (max : Nat) : Prop :=
+  ∀ fuel data dataMapChunk chunks, encrypt S max fuel data = .ok (dataMapChunk, chunks) →
+    ∀ c ∈ chunks, S.len c.value ≤ max
+
+/-- What IS bounded. The data-map chunk is no larger than `MAX_CHUNK_SIZE` (repo code decides that); every other chunk
+is an output of the third-party `encrypt` and is no larger than `MAX_CHUNK_SIZE + over` if that is the crate's bound
+(`hbound`; measured `over = 16`); and every chunk record — two header bytes, the msgpack `bin` header of at most five
+bytes, the value — is smaller than the node's `MAX_PACKET_SIZE` (`packet`, the size of record a node stores) whenever
+`max + over + 7 < packet` (shipped: 1 MiB + 16 + 7 < 5 MiB, example below). -/
+theorem chunks_bounded_partial (S : SE B DM) (max fuel over packet : Nat) (data : B) (dataMapChunk : Chunk B)
+    (chunks : List (Chunk B))
+    (hbound : ∀ b dm cs, S.enc b = some (dm, cs) → ∀ c ∈ cs, S.len c ≤ max + over)
+    (hbin : ∀ b, S.len (S.bin b) ≤ S.len b + 5)
+    (hpacket : max + over + 7 < packet)
+    (h : encrypt S max fuel data = .ok (dataMapChunk, chunks)) :
+    S.len dataMapChunk.value ≤ max ∧ (∀ c ∈ chunks, S.len c.value ≤ max + over) ∧
+      ∀ c ∈ dataMapChunk :: chunks, 2 + S.len (S.bin c.value) < packet := by
+  have hdm := datamap_chunk_bounded S max fuel data dataMapChunk chunks h
+  have hcs := chunks_bounded S max fuel (max + over) data dataMapChunk chunks hbound h
+  refine ⟨hdm, hcs, ?_⟩
+  intro c hc
+  have hb := hbin c.value
+  cases hc with
+  | head => omega
+  | tail _ hc => have := hcs c hc; omega
+
 /-! ### chunks_content_addressed -/
 
 /-- Every produced chunk, the data-map chunk included, is addressed by the hash of its content. -/
@@ -158,7 +201,11 @@ theorem chunks_content_addressed (S : SE B DM) (max fuel : Nat) (data : B) (data
 /-! ### encrypt_deterministic -/
 
 /-- The result is a function of the input alone: two successful runs (whatever the iteration budgets) return the
-same data-map chunk and the same chunks, hence the same addresses. -/
+same data-map chunk and the same chunks, hence the same addresses. What this proves is that the repo's packing adds no
+dependence on anything but the input (in the model: the iteration budget); that the third-party `encrypt` itself
+returns the same data map and chunk contents for the same bytes is not proved but assumed — `SE.enc` is a function —
+and is checked on the real code by the harness (same input encrypted twice ⇒ same data-map chunk and same sorted
+chunk addresses; the order of the chunk list inside a level is run dependent and deliberately not part of the claim). -/
 theorem encrypt_deterministic (S : SE B DM) (max fuel fuel' : Nat) (data : B) (r r' : Chunk B × List (Chunk B))
     (h : encrypt S max fuel data = .ok r) (h' : encrypt S max fuel' data = .ok r') : r = r' := by
   have key : ∀ f f', f ≤ f' → ∀ r r', encrypt S max f data = .ok r → encrypt S max f' data = .ok r' → r = r' := by
@@ -204,13 +251,14 @@ theorem too_small_rejected_on_every_entry_point (S : SE B DM) (L : Laws S) (max 
 them (`fetch_pack_roundtrip`). -/
 theorem entry_roundtrip (S : SE B DM) (L : Laws S) (max fuel : Nat) (pre : B → B) (data : B) (e : Entry)
     (dataMapChunk : Chunk B) (chunks : List (Chunk B))
-    (h : putEntry S max fuel pre e data = .ok (dataMapChunk, chunks)) :
+    (h : putEntry S max fuel pre e data = .ok (dataMapChunk, chunks))
+    (hcf : NoCollision S (chunks.map (·.value))) :
     ∀ fuel', fuel + 1 ≤ fuel' → ∀ codes : List (List Nat),
       fetchFromDataMapChunk S (storeGet chunks) fuel' codes dataMapChunk.value = .ok data := by
   have hpass : e.passesBytesUnchanged = true := by cases e <;> rfl
   unfold putEntry at h
   rw [hpass] at h
-  exact fetch_pack_roundtrip S L max fuel data dataMapChunk chunks h
+  exact fetch_pack_roundtrip S L max fuel data dataMapChunk chunks h hcf
 
 /-- …and only those are rejected at the first level. -/
 theorem large_enough_encrypted (S : SE B DM) (L : Laws S) (data : B) (hlarge : 3 ≤ S.len data) :
@@ -218,6 +266,31 @@ theorem large_enough_encrypted (S : SE B DM) (L : Laws S) (data : B) (hlarge : 3
   cases h : S.enc data with
   | none => have := (L.enc_none_iff_small data).1 h; omega
   | some p => exact ⟨p.1, p.2, rfl⟩
+
+/-! ### encrypt_succeeds -/
+
+/-- Every input large enough to be self-encrypted IS encrypted: `encrypt` returns, the pack loop comes to an end —
+provided the crate's data maps shrink from level to level above `floor` bytes (`Shrinks`) and a chunk can hold `floor`
+bytes. (With `MAX_CHUNK_SIZE` below the size of a three-chunk data-map level the Rust loop would never return: every
+input gives at least three chunks, whose level never fits.) -/
+theorem encrypt_succeeds (S : SE B DM) (L : Laws S) (max floor : Nat) (H : Shrinks S floor) (hfl : floor ≤ max)
+    (data : B) (hlarge : 3 ≤ S.len data) :
+    ∃ fuel r, encrypt S max fuel data = .ok r := by
+  obtain ⟨dm, cs, henc⟩ := large_enough_encrypted S L data hlarge
+  obtain ⟨r, hr⟩ := pack_terminates S L max floor H hfl (S.len (S.wrap false dm)) (S.wrap false dm) [] (Nat.le_refl _)
+  refine ⟨S.len (S.wrap false dm) + 1, (r.1, cs.map (Chunk.new S) ++ r.2), ?_⟩
+  unfold encrypt packDataMap
+  rw [henc]
+  simp only [hr]
+
+/-- …and with it the whole clause without a success hypothesis: a large-enough input encrypts and reads back. -/
+theorem large_enough_roundtrips (S : SE B DM) (L : Laws S) (max floor : Nat) (H : Shrinks S floor) (hfl : floor ≤ max)
+    (data : B) (hlarge : 3 ≤ S.len data) :
+    ∃ fuel dataMapChunk chunks, encrypt S max fuel data = .ok (dataMapChunk, chunks) ∧
+      (NoCollision S (chunks.map (·.value)) → ∀ fuel', fuel + 1 ≤ fuel' → ∀ codes : List (List Nat),
+        fetchFromDataMapChunk S (storeGet chunks) fuel' codes dataMapChunk.value = .ok data) := by
+  obtain ⟨fuel, r, hr⟩ := encrypt_succeeds S L max floor H hfl data hlarge
+  exact ⟨fuel, r.1, r.2, hr, fun hcf => fetch_pack_roundtrip S L max fuel data r.1 r.2 hr hcf⟩
 
 /-! ### Non-vacuity: the hypotheses are satisfiable and a two-level pack happens -/
 
@@ -276,7 +349,6 @@ theorem toy_laws : Laws toy where
     have h1 : (4 * b + 2) % 4 = 2 := by omega
     have h2 : (4 * b + 2) / 4 = b := by omega
     simp [h1, h2]
-  hash_inj := by intro a b h; exact h
 
 /-- `encrypt` of the raw input 28 with `max = 10`: the `First` map (113, 50 bytes) does not fit, its serialised chunk
 (454) is self-encrypted and the `Additional` map (1819, 5 bytes) is returned: two levels. -/
@@ -288,7 +360,61 @@ example : (fetchFromDataMapChunk toy (storeGet [⟨28, 28⟩, ⟨454, 454⟩]) 6
 
 example (codes : List (List Nat)) :
     fetchFromDataMapChunk toy (storeGet [⟨28, 28⟩, ⟨454, 454⟩]) 6 codes 1819 = .ok 28 :=
-  fetch_pack_roundtrip toy toy_laws 10 5 28 ⟨1819, 1819⟩ [⟨28, 28⟩, ⟨454, 454⟩] (by rfl) 6 (by omega) codes
+  fetch_pack_roundtrip toy toy_laws 10 5 28 ⟨1819, 1819⟩ [⟨28, 28⟩, ⟨454, 454⟩] (by rfl)
+    (by intro a ha b hb h; exact h) 6 (by omega) codes
+
+/-- the same instance with a hash that is NOT injective (`b % 4096`: 28 and 4124 collide), as no real hash is: the laws
+hold and the round trip applies because the two produced chunks, 28 and 454, do not collide -/
+def toyMod : SE Nat Nat := { toy with hash := fun b => b % 4096, infos := fun dm => [dm % 4096] }
+
+theorem toyMod_laws : Laws toyMod where
+  enc_sound := by
+    intro b dm cs h
+    simp only [toyMod, toy, Option.some.injEq, Prod.mk.injEq] at h ⊢
+    refine ⟨cs, List.Perm.refl _, ?_, h.1.symm ▸ rfl⟩
+    rw [← h.2, ← h.1]; rfl
+  dec_perm := by intros; rfl
+  enc_none_iff_small := toy_laws.enc_none_iff_small
+  unwrap_wrap := toy_laws.unwrap_wrap
+  unbin_bin := toy_laws.unbin_bin
+
+example : toyMod.hash 28 = toyMod.hash 4124 ∧ (28 : Nat) ≠ 4124 := by decide
+
+example (codes : List (List Nat)) :
+    fetchFromDataMapChunk toyMod (storeGet [⟨28, 28⟩, ⟨454, 454⟩]) 6 codes 1819 = .ok 28 :=
+  fetch_pack_roundtrip toyMod toyMod_laws 10 5 28 ⟨1819, 1819⟩ [⟨28, 28⟩, ⟨454, 454⟩] (by rfl)
+    (by
+      intro a ha b hb h
+      simp only [List.map_cons, List.map_nil, List.mem_cons, List.not_mem_nil, or_false] at ha hb
+      rcases ha with rfl | rfl <;> rcases hb with rfl | rfl <;> first | rfl | (exact absurd h (by decide)))
+    6 (by omega) codes
+
+/-- sizes of the toy instance: everything is at least 5 bytes long and an `Additional` level is 5 bytes -/
+theorem toy_shrinks : Shrinks toy 5 where
+  two_le := by omega
+  packed_large := by intro b _; have := toyLen_ge (packedBytes toy b); exact this
+  shrink := by
+    intro b dm cs hb _
+    have : toy.len (toy.wrap true dm) = 5 := by
+      have h1 : (4 * dm + 3) % 4 = 3 := by omega
+      simp [toy, toyLen, h1]
+    omega
+
+/-- instance of `encrypt_succeeds`: every toy input encrypts with `max = 10` -/
+example (data : Nat) : ∃ fuel r, encrypt toy 10 fuel data = .ok r :=
+  encrypt_succeeds toy toy_laws 10 5 toy_shrinks (by omega) data (toyLen_ge data)
+
+/-- The clause "every produced chunk is no larger than `MAX_CHUNK_SIZE`" does not follow from what is assumed of the
+crate, and fails where the crate pads: in the toy instance a raw input is its own (single) content chunk of 100 bytes;
+with `max = 84` its data map fits at once and the content chunk is `max + 16` bytes long — the overhead measured on the
+real crate (known finding K-j-chunk-exceeds-max). -/
+theorem content_chunk_exceeds_max_witness : ¬ AllChunksBounded toy 84 := by
+  intro h
+  have := h 5 28 ⟨113, 113⟩ [⟨28, 28⟩] (by rfl) ⟨28, 28⟩ List.mem_cons_self
+  exact absurd this (by decide)
+
+/-- the shipped sizes satisfy the side condition of `chunks_bounded_partial`: 1 MiB + 16 + 7 < `MAX_PACKET_SIZE` -/
+example : 1048576 + 16 + 7 < Gen.SelfEnc.maxPacketSize := by decide
 
 /-- out of iterations is an error -/
 example : (encrypt toy 10 0 28).toOption = none := by decide
@@ -301,6 +427,11 @@ end SafeNet.Props.C14
 #print axioms SafeNet.Props.C14.datamap_chunk_fits
 #print axioms SafeNet.Props.C14.datamap_chunk_bounded
 #print axioms SafeNet.Props.C14.chunks_bounded
+#print axioms SafeNet.Props.C14.chunks_bounded_partial
+#print axioms SafeNet.Props.C14.content_chunk_exceeds_max_witness
+#print axioms SafeNet.Props.C14.completion_codes_are_the_permutations
+#print axioms SafeNet.Props.C14.encrypt_succeeds
+#print axioms SafeNet.Props.C14.large_enough_roundtrips
 #print axioms SafeNet.Props.C14.chunks_content_addressed
 #print axioms SafeNet.Props.C14.encrypt_deterministic
 #print axioms SafeNet.Props.C14.too_small_rejected
@@ -308,3 +439,5 @@ end SafeNet.Props.C14
 #print axioms SafeNet.Props.C14.entry_roundtrip
 #print axioms SafeNet.Props.C14.large_enough_encrypted
 #print axioms SafeNet.Props.C14.toy_laws
+#print axioms SafeNet.Props.C14.toyMod_laws
+#print axioms SafeNet.Props.C14.toy_shrinks
